@@ -133,6 +133,16 @@ impl num_traits::FromPrimitive for TwoFloat {
         Some(TwoFloat::from(n))
     }
 
+    #[inline]
+    fn from_f32(n: f32) -> Option<Self> {
+        Some(TwoFloat::from(n))
+    }
+
+    #[inline]
+    fn from_f64(n: f64) -> Option<Self> {
+        Some(TwoFloat::from(n))
+    }
+
     fn from_usize(n: usize) -> Option<Self> {
         match core::mem::size_of::<usize>() {
             1 => Self::from_u8(n as u8),
